@@ -272,8 +272,8 @@ def gen_cases(kind, seed, n):
     r2 = SplitMix(seed * 7919 + {"c01": 101, "c02": 202, "c03": 303, "c09": 909, "c15": 1515}[kind])
 
     def scaled(c, wmode):
-        if wmode == "real" and r2.below(100) < 20:
-            c["wscale"] = r2.pick([-60, -3, 40])
+        if wmode == "real" and r2.below(100) < 30:
+            c["wscale"] = r2.pick([-60, -3, -1, -1, 40])
         return c
     cases = []
     for i in range(n):
@@ -304,6 +304,14 @@ def gen_cases(kind, seed, n):
                 ops.append(("add_edge", ((b, a) if r2.below(2) else (a, b)) + (1 + r2.below(3), None)))
             ops += [("q", "alg_sssp", [x, 1]) for x in big[:3]] + [("q", "alg_cc", [1]), ("q", "alg_bc", [1])]
             cases.append({"id": "h%d" % i, "spec": sp, "snap_each": True, "ops": ops, "wmode": wmode})
+        elif kind == "c03" and i % 25 == 7:
+            # weights that SUM to the number of edges without being 1 (halves of 1,1,3,3 through the dyadic scale)
+            # and a light two-hop route beating a heavier direct edge: weighted and hop-count answers differ
+            a, b, c_, d = names[:4]
+            es = r2.shuffle([(a, b, 1, None), (b, c_, 1, None), (a, c_, 3, None), (c_, d, 3, None)])
+            ops = [("add_nodes", [(x, None) for x in r2.shuffle([a, b, c_, d])]), ("add_edges", es)]
+            ops += [("q", "alg_sssp", [x, 1]) for x in (a, b, c_, d)] + [("q", "alg_cc", [1]), ("q", "alg_bc", [1])]
+            cases.append({"id": "h%d" % i, "spec": sp, "snap_each": True, "ops": ops, "wmode": "real", "wscale": -1})
         elif kind == "c03":
             wmode = "nan" if r.below(4) == 0 else "real"
             ops = gen_mutations(r, names, 2 + r.below(9), wmode=wmode, collide=60)
